@@ -44,15 +44,17 @@ def key_discipline(P: Program, rep: Report, rule: str):
             if isinstance(x, ast.Attribute) and x.attr == "key" and isinstance(x.ctx, ast.Load):
                 n += 1
                 par = parents.get(id(x))
-                ok = False
-                if isinstance(par, ast.Subscript) and par.slice is x:
-                    ok = True                      # dict key
-                elif isinstance(par, ast.Compare) and all(isinstance(o, (ast.Eq, ast.NotEq, ast.In, ast.NotIn)) for o in par.ops):
-                    ok = True
-                elif isinstance(par, ast.keyword) or isinstance(par, ast.Call) and x in par.args:
-                    ok = True                      # passed on (constructor of the duplicate wrapper, list append for messages)
-                elif isinstance(par, (ast.FormattedValue, ast.JoinedStr)):
-                    ok = True
+                # a key may be looked up, compared for equality, stored or passed on; what the two-key abstraction does
+                # not cover is computing with it: a method call on it, arithmetic, ordering, indexing into it
+                ok = True
+                if isinstance(par, ast.Attribute) and par.value is x:
+                    ok = False
+                elif isinstance(par, ast.BinOp):
+                    ok = False
+                elif isinstance(par, ast.Compare) and not all(isinstance(o, (ast.Eq, ast.NotEq, ast.In, ast.NotIn, ast.Is, ast.IsNot)) for o in par.ops):
+                    ok = False
+                elif isinstance(par, ast.Subscript) and par.value is x:
+                    ok = False
                 rep.check(ok, rule, f"key-use:{f.name}:{norm_stmt(par) if par is not None else ''}", f"{f.module.relpath}:{x.lineno}",
                           f"Library.{f.name} inspects a block key other than by equality / dict lookup ({ast.unparse(par) if par is not None else ''}): "
                           f"the two-key abstraction does not cover it")
@@ -100,6 +102,7 @@ def run(P: Program, rep: Report):
     rep.require_count("C08.R2", "library operations explored", stats["operations"], 300)
     fails = {}
     okc = {"R2": 0, "R6": 0, "R7": 0}
+    per_op = {}
     for hist, op, o in records:
         if o["kind"] == "unsupported":
             raise AnalysisError(f"C08: analyser cannot follow Library.{op[0]}: {o['msg']}")
@@ -118,6 +121,7 @@ def run(P: Program, rep: Report):
                 fails.setdefault(("C08.R2", f"{name}:view-{v}"), (hs, f"after {name}: {v} = {o['after'][v]!r}, contract {o['ref_after'][v]!r}", o))
             else:
                 okc["R2"] += 1
+                per_op[("C08.R2", name)] = per_op.get(("C08.R2", name), 0) + 1
         else:
             if o["outcome"] != o["ref_outcome"]:
                 fails.setdefault(("C08.R2", f"{name}:expected-{o['ref_outcome']}"), (hs, f"{name} {'returns' if o['outcome'] == 'ok' else 'raises ' + o['outcome']} where the contract requires {o['ref_outcome']}", o))
@@ -128,6 +132,7 @@ def run(P: Program, rep: Report):
                                  (hs, f"{name} raises ValueError after changing the library: {changed[0]} was {o['before'][changed[0]]!r}, is {o['after'][changed[0]]!r}", o))
             else:
                 okc["R7"] += 1
+                per_op[("C08.R7", name)] = per_op.get(("C08.R7", name), 0) + 1
         # invariants
         a = o["after"]
         inv = None
@@ -153,7 +158,9 @@ def run(P: Program, rep: Report):
     for (rule, construct), (hs, msg, o) in sorted(fails.items()):
         m = P.cls("library", "Library").methods.get(construct.split("(")[0])
         rep.fail(rule, construct, m.loc if m else libf.loc, f"{msg} [history: {hs}]", {"history": hs})
-    for r, n in okc.items():
-        if n:
-            rep.ok(f"C08.{r}", f"library-exploration:{n}-operations-agree", "bibtexparser/library.py", f"{n} operation instances")
+    for (rule, name), n in sorted(per_op.items()):
+        if not any(r == rule and c.startswith(name + ":") for (r, c) in fails):
+            rep.ok(rule, f"{name}:{n}-instances-agree", "bibtexparser/library.py")
+    if okc["R6"] and not any(r == "C08.R6" for (r, c) in fails):
+        rep.ok("C08.R6", f"invariants:{okc['R6']}-post-states", "bibtexparser/library.py")
     rep.samples.extend({"rule": "C08.R2", "history": fmt_hist(h, op), "outcome": o.get("outcome")} for h, op, o in records[5:400:60])
